@@ -616,6 +616,44 @@ func ruleLogFlowPure(p *Prog, r *Report, fs []*ssa.Function, lp map[*ssa.Functio
 		}
 		bndIn(rg.f, rg.blocks, where)
 	}
+	// library functions called (transitively) from level-dependent code run only when logging is enabled at that
+	// site, whoever else may call them: a panic in one of them is a result that depends on the level.
+	calledInLog := map[*ssa.Function]bool{}
+	var walkCalls func(in ssa.Instruction, depth int)
+	walkCalls = func(in ssa.Instruction, depth int) {
+		ci, ok := in.(ssa.CallInstruction)
+		if !ok || depth > 8 {
+			return
+		}
+		for _, g := range p.Callees(ci) {
+			if !isLibFn(g) || g.Blocks == nil || calledInLog[g] || levelOnly[g] || lp[g] {
+				continue
+			}
+			calledInLog[g] = true
+			eachInstr(g, func(_ *ssa.BasicBlock, _ int, in2 ssa.Instruction) { walkCalls(in2, depth+1) })
+		}
+	}
+	for _, rg := range regions {
+		for b := range rg.blocks {
+			for _, in := range b.Instrs {
+				walkCalls(in, 0)
+			}
+		}
+	}
+	for f := range levelOnly {
+		eachInstr(f, func(_ *ssa.BasicBlock, _ int, in ssa.Instruction) { walkCalls(in, 0) })
+	}
+	var cil []*ssa.Function
+	for g := range calledInLog {
+		cil = append(cil, g)
+	}
+	sort.Slice(cil, func(i, j int) bool { return fnName(cil[i]) < fnName(cil[j]) })
+	var ciln []string
+	for _, g := range cil {
+		ciln = append(ciln, fnName(g))
+		bndIn(g, nil, fnName(g)+" | called from level-dependent code")
+	}
+	r.Extra("called_from_level_dependent_code", ciln)
 	for f := range levelOnly {
 		where := fnName(f) + " | level-only function"
 		okAll := true
